@@ -43,9 +43,9 @@ PARTS = ("global", "global", "global", "local", "mismatch", "loaded")
 def _dataset(rng, N, n, dtype, const_col):
     """N vectors of n coefficients, well conditioned per coefficient (kappa <= 1e4) unless N == 1."""
     dt = np.dtype(dtype)
-    for _ in range(200):
+    for attempt in range(200):
         std = np.exp(rng.uniform(np.log(0.1), np.log(10.0), size=n))
-        mean = std * rng.uniform(-50.0, 50.0, size=n)
+        mean = std * rng.uniform(-50.0, 50.0, size=n) * (1.0 if attempt < 100 else 0.05)
         if dt.kind == "i":
             std = std + 3.0
         D = rng.standard_normal((N, n)) * std + mean
